@@ -18,22 +18,59 @@ def one(name, tgt):
             out["applies"] = False
             return out
         out["applies"] = True
-        env = dict(os.environ, CARGO_TARGET_DIR=tgt, CARGO_NET_OFFLINE="true")
-        t = subprocess.run(["cargo", "test", "--offline", "-q"], cwd=scratch, capture_output=True, text=True, env=env)
-        out["tests_pass"] = t.returncode == 0
+        fast = bool(os.environ.get("VERIF_RF_FAST"))
+        if not fast:
+            env = dict(os.environ, CARGO_TARGET_DIR=tgt, CARGO_NET_OFFLINE="true")
+            t = subprocess.run(["cargo", "test", "--offline", "-q"], cwd=scratch, capture_output=True, text=True, env=env)
+            out["tests_pass"] = t.returncode == 0
+        else:
+            out["tests_pass"] = PREV.get(name, {}).get("tests_pass")      # established when the rewrite was imported
         env = dict(os.environ, VERIF_EVIDENCE_DIR=os.path.join(work, "ev"), PYTHONHASHSEED="0")
-        r = subprocess.run([sys.executable, os.path.join(HERE, "check.py"), "all", "--repo", scratch], capture_output=True, text=True, env=env)
-        out["rc"] = r.returncode
-        out["alarms"] = [l[:300] for l in r.stdout.splitlines() if l.startswith("  rule ")]
-        if r.returncode not in (0, 1):
-            out["tail"] = (r.stdout + r.stderr)[-500:]
+        pids = ["all"]
+        if fast:
+            # only the properties whose rules can see the files the rewrite touches (a rule reads its anchor files and what
+            # they call: packet / header / option_value are below everything)
+            touched = set(l.split(" b/")[-1].strip() for l in open(os.path.join(RF, name + ".diff")) if l.startswith("diff --git"))
+            sel = set()
+            for f in touched:
+                if f == "src/link_format.rs":
+                    sel |= {"C16", "C17", "C18"}
+                elif f == "src/observe.rs":
+                    sel |= {"C14", "C15"}
+                elif f.startswith("src/impl_coap_message"):
+                    sel |= {"C19"}
+                elif f.startswith("src/block_handler/"):
+                    sel |= {"C08", "C09", "C10", "C11", "C12", "C13", "C20"}
+                else:
+                    sel = set("C%02d" % i for i in range(1, 21))
+                    break
+            pids = sorted(sel)
+        rc, alarms, tail = 0, [], ""
+        for pid in pids:
+            r = subprocess.run([sys.executable, os.path.join(HERE, "check.py"), pid, "--repo", scratch], capture_output=True, text=True, env=env)
+            rc = max(rc, r.returncode)
+            alarms += [l[:300] for l in r.stdout.splitlines() if l.startswith("  rule ")]
+            if r.returncode not in (0, 1):
+                tail = (r.stdout + r.stderr)[-500:]
+        out["rc"] = rc
+        out["alarms"] = alarms
+        out["checked"] = pids
+        if tail:
+            out["tail"] = tail
         return out
     finally:
         shutil.rmtree(work, ignore_errors=True)
 
 
+PREV = {}
+
+
 def main():
     names = [a for a in sys.argv[1:] if not a.startswith("--")]
+    try:
+        PREV.update(json.load(open(os.path.join(RF, "results.json")))["results"])
+    except Exception:
+        pass
     idx = json.load(open(os.path.join(RF, "index.json")))
     todo = [n for n in sorted(idx) if not names or n in names]
     jobs = int(os.environ.get("VERIF_JOBS", "8"))
@@ -54,7 +91,9 @@ def main():
     finally:
         for d in tg:
             shutil.rmtree(d, ignore_errors=True)
-    json.dump({"results": res}, open(os.path.join(RF, "results.json"), "w"), indent=1, sort_keys=True)
+    allres = dict(PREV)
+    allres.update(res)
+    json.dump({"results": allres}, open(os.path.join(RF, "results.json"), "w"), indent=1, sort_keys=True)
     print("silent on %d / %d (%.0fs)" % (sum(1 for r in res.values() if r.get("rc") == 0), len(res), time.time() - t0))
 
 
